@@ -257,8 +257,64 @@ def run(chk):
     chk.extra['worst_residual'] = {k: float('%.3e' % v) for k, v in worst.items()}
     chk.extra['model_mismatches'] = nmis
     chk.samples = [lines[0][:300], lines[7][:300]]
+    if not chk.violations:
+        singular_calibrations(chk, exe, rng)
     if broken and not chk.violations:
         chk.violation('obligation', 'proof/correspondence obligations that no longer check:\n' + '\n'.join(broken[:30]), nofail=True)
+
+
+def singular_calibrations(chk, exe, rng):
+    """exactly determined calibration systems built from three reflect standards of a one-port: with a repeated standard the system has
+    duplicated equations / a missing column, the elimination meets an exactly zero pivot, and vnacal_new_solve must take the documented
+    error path (EDOM); with three different standards it must solve and correct a device"""
+    from props import calsim
+    import itertools
+    codes = (calsim.SHORT, calsim.OPEN, calsim.MATCH)
+    for typ in calsim.TYPES:
+        for triple in itertools.product(codes, repeat=3):
+            sc = calsim.Scenario(rng, typ, 1, 1, 1).begin()
+            for code in triple:
+                sc.add_reflect(1, code)
+            sc.solve()
+            isolve = len(sc.lines) - 1
+            distinct = len(set(triple)) == 3
+            dut = sc.random_dut()
+            if distinct:
+                sc.add_calibration()
+                sc.lines.append(sc.apply_line(0, dut))
+            sc.lines += ['cal free 0', 'cal live']
+            out, rc, err = vlib.run_lines(exe, sc.lines, timeout=120)
+            chk.evaluations += 1
+            tag = '%s one-port from standards %s' % (typ, [{0: 'match', 1: 'open', 2: 'short'}[c] for c in triple])
+            if rc != 0 or len(out) != len(sc.lines):
+                chk.violation('sanitizer-singular-cal', '%s: crashed / sanitizer report:\n%s' % (tag, err[-1000:]), sc.lines[:len(out) + 1])
+                return
+            res = out[isolve]
+            if distinct:
+                ok, S = calsim.parse_apply(out[isolve + 2], 1) if res.startswith('ok') else (False, None)
+                e = abs(S[0][0, 0] - dut[0][0, 0]) if ok else float('inf')
+                if not e <= 1e-9:
+                    chk.violation('determined-cal', '%s: three different standards determine the one-port, yet solve / apply gave %s (error %.3e)' % (tag, res[:60], e), sc.lines[:isolve + 3])
+                    return
+                chk.count('calibration_solved')
+            elif set(triple) == {calsim.MATCH}:
+                # S = 0 in every standard: the columns of the terms multiplied by S are exactly zero whatever the rounding, so the
+                # elimination meets an exactly zero pivot
+                if res.startswith('ok') or 'EDOM' not in res:
+                    chk.violation('singular-cal', '%s: a column of the system is exactly zero but vnacal_new_solve answered %s instead of failing with EDOM' % (tag, res[:80]), sc.lines[:isolve + 1])
+                    return
+                chk.count('singular_calibration_edom')
+            else:
+                # duplicated equations: the pivot is zero only up to the rounding of the complex multipliers; detection is best effort
+                # (nothing claimed beyond: no crash, no leak, and a reported failure is EDOM)
+                if not res.startswith('ok') and 'EDOM' not in res:
+                    chk.violation('singular-cal-errno', '%s: a singular system was reported as %s, not EDOM' % (tag, res[:80]), sc.lines[:isolve + 1])
+                    return
+                chk.count('duplicate_standard_' + ('refused' if not res.startswith('ok') else 'accepted'))
+            chk.distinct.add(('cal3', typ, triple))
+            if out[-1] != 'ok live=0':
+                chk.violation('singular-cal-leak', '%s: allocations remain: %s' % (tag, out[-1]), sc.lines)
+                return
 
 
 def replay(chk, path):
